@@ -49,7 +49,11 @@ def selfvalidate(rep, pid):
                    suffix="", prefix="tmp_"))
     for kind, what in (("flip_comparisons", "every comparison written the other way round (a < b as b > a)"), ("matmul_operator", "np.dot(a, b) written a @ b"),
                        ("swap_branches", "every if/else written with the negated test and swapped branches"),
-                       ("numpy_alias", "numpy imported under another alias")):
+                       ("numpy_alias", "numpy imported under another alias"),
+                       ("return_temp", "every `return <expr>` written `ret_value = <expr>; return ret_value`"),
+                       ("len_tests", "emptiness tests respelled (len(x) != 0 as len(x) > 0, == 0 as < 1, > 0 as >= 1)"),
+                       ("nest_and", "every `if a and b:` without else written as nested ifs"),
+                       ("else_after_return", "code after `if c: ...return/raise/continue/break` moved into an else branch")):
         vs.append(dict(pid=pid, name=f"twin: {what}", expect="silent", edits=[], tier="quick", mentions=None, transform=kind))
     with cf.ThreadPoolExecutor(min(16, os.cpu_count() or 4)) as ex:
         res = list(ex.map(selftest.run_variant, vs))
